@@ -5,7 +5,7 @@ ID = 'C09'
 LEVEL = 'exploration'
 RULE = ('ALL non-empty predicates over 1-3 two-valued variables and over the '
         'grids 0..3, -2..1, -4..-1, 0..7, 0..3x0..1, -2..1x0..1, -4..-1x0..1 '
-        '(thorough: all 65535 over 4 two-valued variables, over 0..3x-2..1 and over -4..-1x-2..1; '
+        '(thorough: the cyclic-core instances and every fourth of 640 deterministic 32-point predicates over five 0..1 variables and over 0..3x0..3x0..1, and all 65535 over 4 two-valued variables, over 0..3x-2..1 and over -4..-1x-2..1; '
         'quick: 2048 of each, spread with stride 32 from a seed-selected offset, plus EVERY predicate of these three whose covering problem has a non-empty cyclic core) x care in {TRUE, type '
         'hints, f|g, a care set missing a point of f}; cover.minimize read '
         'out to a set of boxes and compared with brute force: only maximal '
@@ -38,6 +38,7 @@ def shards(tier, seed, spread=BLOCK, cyclic_grids=None, small=None):
             for lo in range(1, 65536, 256):
                 out.append(dict(grid=g, lo=lo, hi=min(lo + 255, 65535),
                                 backend='cudd'))
+            continue
         else:
             # 2048 masks spread over the whole range (stride 32), the
             # offset chosen by the seed
@@ -50,7 +51,35 @@ def shards(tier, seed, spread=BLOCK, cyclic_grids=None, small=None):
             for lo in range(1, 65536 if g in cyclic_grids else 0, 512):
                 out.append(dict(grid=g, cyclic=[lo, min(lo + 511, 65535)],
                                 backend='cudd', care='TRUE+hints'))
+    if tier == 'thorough':
+        # larger instances (32 points): not exhaustive, a deterministic
+        # spread of predicates with 12..20 points, kept if the covering
+        # problem has a non-empty cyclic core
+        for g in ('b5', 'g444'):
+            for i in range(0, 640, 8):
+                out.append(dict(grid=g, large=[i, i + 8, seed],
+                                backend='cudd', care='TRUE+hints'))
     return out
+
+
+def _large_masks(grid, lo, hi, seed):
+    import random
+    import itertools
+    from vlib import boxes as bx
+    from vlib import readout as ro
+    rngs = [ro.rep_range(h) for _, h in cv.GRIDS[grid]]
+    sp = list(itertools.product(*rngs))
+    allb = bx.all_boxes(rngs)
+    bpts = {b: frozenset(bx.box_points(b)) for b in allb}
+    for i in range(lo, hi):
+        rnd = random.Random(f'{grid}-{seed}-{i}')
+        k = rnd.randint(12, 20)
+        F = frozenset(rnd.sample(sp, k))
+        impl = [b for b in allb if bpts[b] <= F]
+        pr = [b for b in impl
+              if not any(b != c and bpts[b] < bpts[c] for c in impl)]
+        if bx.cyclic_core_size(F, pr) > 0 or i % 4 == 0:
+            yield sum(1 << j for j, p in enumerate(sp) if p in F)
 
 
 # witnesses of past findings: always part of the scope
@@ -70,6 +99,8 @@ def cases(shard):
         fs = [1 + (off + 32 * i) % 65535 for i in range(lo, hi)]
     elif 'cyclic' in shard:
         fs = _cyclic(g, *shard['cyclic'])
+    elif 'large' in shard:
+        fs = _large_masks(g, *shard['large'])
     else:
         fs = range(shard['lo'], shard['hi'] + 1)
     for f in fs:
